@@ -72,6 +72,18 @@ class Note(NamedTuple):
         # bool(...) wrapper to satisfy mypy
         return bool(self._comparable() < other._comparable())
 
+    # NamedTuple inherits tuple's rich comparisons, which total_ordering
+    # won't replace, so the remaining operators are spelled out here
+
+    def __le__(self, other) -> bool:
+        return bool(self._comparable() <= other._comparable())
+
+    def __gt__(self, other) -> bool:
+        return bool(self._comparable() > other._comparable())
+
+    def __ge__(self, other) -> bool:
+        return bool(self._comparable() >= other._comparable())
+
     def __str__(self):
         """
         Returns the note string as it would appear in note data.
